@@ -4,7 +4,7 @@ PROPS = {}
 
 PROPS["C12"] = dict(
     num=12,
-    labs=["c12", "drv"],
+    labs=["c12", "drv", "par"],
     rule="Frames over the equivalence classes the programs inspect (ethertype, protocol, IHL 0..15 x all 256 TCP flag bytes, "
          "fragment bits x protocols, every single-byte/bit perturbation of header bytes 12..73 of 13 base frames, every truncation "
          "length, random/mutated frames) x TCP 4-tuple configurations at sign/endianness boundaries; each frame is run through the "
@@ -13,7 +13,7 @@ PROPS["C12"] = dict(
     trivial_classes=[0],
     signatures={"1": "icmp program differs from its spec", "2": "udp program differs from its spec", "3": "synack program differs from its spec",
                 "4": "drop-all program accepts a frame", "5": "tcp 4-tuple program differs from its spec",
-                "6.0": "matcher yields a hop for a frame the installed filter rejects: IPv6 hop-by-hop header before ICMPv6", "6.1": "matcher yields a hop for a frame the installed capture filter rejects", "6.2": "the SYN-ACK that establishes the SACK handshake is rejected by the SYN-ACK capture filter"},
+                "6.0": "matcher yields a hop for a frame the installed filter rejects: IPv6 hop-by-hop header before ICMPv6", "6.1": "matcher yields a hop for a frame the installed capture filter rejects", "6.3": "the 4-tuple capture filter a TCP run installed on a handle is not for the flow of the probes it writes through that handle (real run, parameter lab kind 12)", "6.2": "the SYN-ACK that establishes the SACK handshake is rejected by the SYN-ACK capture filter"},
     trusted_base=["x/net/bpf assembler and VM (the Coq interpreter is compared with bpf.VM on every case)",
                   "kernel cBPF semantics = x/net/bpf VM semantics (not verified)"],
     assumptions=["programs are the ones getClassicBPFFilter returns on this tree (regenerated each run)"],
@@ -112,12 +112,12 @@ PAR_TRUSTED = ["real sockets are used only for LocalAddrForHost / reserveLocalPo
 PROPS["C19"] = dict(num=19, labs=["par", "drv", "eng"], rule=PAR_RULE + " " + DRV_RULE, nontrivial="any case", trivial_classes=[],
     signatures={"19.9": "HTTP query: a numeric port / max-ttl value was replaced by another value instead of being handed on (honoured or rejected)", "19.1": "TTL byte of an emitted probe differs from the TTL asked of the driver", "19.2": "a request with TTL bounds outside 1..255 (or min > max) was executed", "19.3": "probes on the wire do not cover exactly the requested TTL range",
                 "19.4": "probes went to another address", "19.5": "probes went to another port / a port outside 1..65535 was used", "19.6": "probes used another protocol", "19.7": "a valid target literal was rejected or parsed to another address/port",
-                "19.8": "a port outside 1..65535 was accepted", "19.10": "a request with an unknown protocol or TCP method was executed instead of rejected", "19.9": "the process crashed", "9": "a valid scripted run returned an error", "10": "engine panicked", "3.1": "out-of-range reply produced a path",
+                "19.8": "a port outside 1..65535 was accepted", "19.11": "HTTP query: the endpoint the request would probe (what the handed-on hostname and port resolve to) is not the address / port the target text and port parameter state", "19.10": "a request with an unknown protocol or TCP method was executed instead of rejected", "19.9": "the process crashed", "9": "a valid scripted run returned an error", "10": "engine panicked", "3.1": "out-of-range reply produced a path",
                 "6": "emission order / pacing violated"},
     trusted_base=PAR_TRUSTED + DRV_TRUSTED, assumptions=[])
-PROPS["C20"] = dict(num=20, labs=["par"], rule=PAR_RULE, nontrivial="fallback-selector and real-run cases (class % 8 in {4, 5})", trivial_classes=[],
+PROPS["C20"] = dict(num=20, labs=["par", "kern"], rule=PAR_RULE + " Kernel lab (as C13): the TCP scenarios against real Linux targets - listening with and without SACK, closed port, and a firewalled port whose SYNs are dropped so that connect() times out.", nontrivial="fallback-selector and real-run cases (class % 8 in {4, 5})", trivial_classes=[],
     signatures={"20.1": "method sack produced a SYN trace / neither a SACK trace nor an error", "20.2": "method syn attempted SACK (opened a TCP connection)", "20.3": "prefer_sack: SYN fallback taken although SACK is available, or not taken although it is unavailable",
-                "20.4": "prefer_sack: a non-capability SACK failure was masked or lost its cause", "20.5": "a traceroute run of a request was started with a TCP method other than the requested one", "20.6": "an end-to-end probe was started with a SACK method", "20.9": "crashed"},
+                "20.4": "prefer_sack: a non-capability SACK failure was masked or lost its cause", "13.1": "real kernel target: prefer_sack / syn did not produce the SYN trace the path predicts (e.g. no fallback although SACK is unavailable: closed or firewalled port, SACK disabled)", "13.2": "real kernel target: method sack against a target that cannot do SACK did not fail as not-supported", "20.5": "a traceroute run of a request was started with a TCP method other than the requested one", "20.6": "an end-to-end probe was started with a SACK method", "20.9": "crashed"},
     trusted_base=PAR_TRUSTED, assumptions=["the loopback listener's accept count equals the TCP connections the run opened"])
 
 ISO_RULE = ("Allocator lab: packets.AllocPacketID sequences of 1..12 blocks (sizes incl. 1, 30, 255) from counter values at and around the 2^16 and 2^32 wraps, sequentially and from concurrent goroutines; icmp.nextEchoID sequences. "
@@ -139,7 +139,7 @@ LIFE_RULE = ("Lifecycle lab: the real runTracerouteOnce for udp, icmp, tcp-syn (
              "the k-th WriteTo / SetReadDeadline / Read (k = 1, 2, middle, last, last+1; every k in the thorough tier) x {fatal error, deadline error, zero-length read}; after the call returns the virtual clock runs on for 2 s so that any goroutine "
              "the run left behind touches its closed handles. Observed: error / result nil-ness, errors.Is(err, injected cause), per-handle close counts, use after close. SACK: the real-run part of the policy lab (kind 12: filter/send/read faults, handles closed once).")
 PROPS["C10"] = dict(num=10, labs=["life", "par"], rule=LIFE_RULE + " " + PAR_RULE, nontrivial="any fault-injection case", trivial_classes=[],
-    signatures={"10.1": "a handle was not closed exactly once, or was used after its close (also by a goroutine outliving the call)", "10.2": "the returned error does not wrap the injected cause", "10.3": "an error was returned together with a result, or neither", "10.4": "a SendProbe failure (also one that was in flight when the destination answer was processed) did not fail the run with its cause", "10.9": "the entry point panicked"},
+    signatures={"10.1": "a handle was not closed exactly once, or was used after its close (also by a goroutine outliving the call)", "10.2": "the returned error does not wrap the injected cause", "10.3": "an error was returned together with a result, or neither", "10.6": "a TCP connection dialled by the SACK run was still open (seen from the peer) after the run returned", "10.4": "a SendProbe failure (also one that was in flight when the destination answer was processed) did not fail the run with its cause", "10.9": "the entry point panicked"},
     trusted_base=PAR_TRUSTED + ["fault injection happens at the Source/Sink seam; the real AF_PACKET / raw-socket code below it is not exercised"], assumptions=[])
 
 import vlib as _vlib
